@@ -222,6 +222,8 @@ class Gen:
         self.anchor_lines = {}
         self.closure_sigs = {}
         self.loop_sigs = {}
+        self.locals = {}
+        self.renamed_fns = []
 
 
 def load_unit(unit):
@@ -237,7 +239,7 @@ PROOF_FN_RE = re.compile(
 )
 
 
-def build(unit, model, repo=None, mutate_false=None, tag=""):
+def build(unit, model, repo=None, mutate_false=None, tag="", drop_hints=()):
     """Assemble build/<unit>@<model><tag>.rs from the current working tree of `repo`."""
     repo = repo or REPO
     cfg = load_unit(unit)
@@ -269,6 +271,12 @@ def build(unit, model, repo=None, mutate_false=None, tag=""):
             req_contracts[k] = contract_to_request(c, False)
         else:
             req_contracts[k] = contract_to_request(c, mutate_false == k)
+    # stale hints (vx/judge.py): the proof hints of these functions no longer compile against the edited body
+    # (e.g. they name a local that was renamed); contracts and loop invariants stay, the hints are dropped
+    for k in drop_hints:
+        if k in req_contracts:
+            for part in ("inserts", "loop_ends", "body_prefix", "body_suffix"):
+                req_contracts[k].pop(part, None)
     for k, rc in req_contracts.items():
         for ins in rc.get("inserts", []):
             ins["droppable"] = True
@@ -284,6 +292,7 @@ def build(unit, model, repo=None, mutate_false=None, tag=""):
                 _bd = json.load(bf)
                 rules["pinned_closure_sigs"] = _bd.get("closure_sigs", {})
                 rules["pinned_loop_sigs"] = _bd.get("loop_sigs", {})
+                rules["pinned_locals"] = _bd.get("locals", {})
         except Exception:
             pass
     sources = json.loads(json.dumps(cfg["sources"]))
@@ -340,6 +349,7 @@ def build(unit, model, repo=None, mutate_false=None, tag=""):
             g.closure_sigs[fk] = sigs
         for (fk, sigs) in seg.get("loop_sigs", []):
             g.loop_sigs[fk] = sigs
+        g.renamed_fns += seg.get("renamed_fns", [])
         # function ranges in generated coordinates
         for fn in seg["fns"]:
             gs = ge = None
@@ -365,6 +375,7 @@ def build(unit, model, repo=None, mutate_false=None, tag=""):
                 "n_requires": count_clauses(c.get("requires", "")),
                 "n_ensures": count_clauses(c.get("ensures", "")),
                 "n_loop_contracts": len(c.get("loops", {})),
+                "locals": fn.get("locals", []),
                 "closures": fn.get("closures", 0),
                 "closures_without_contract": fn.get("closures_without_contract", 0),
                 "loops": fn.get("loops", 0),
@@ -508,6 +519,24 @@ def run_verus(path, rlimit=30, seed=None, extra=None, timeout=400, verify_functi
         r.fatal = "verus front-end error: " + "".join(d["rendered"] for d in r.diags)[-4000:] + "\n".join(other)[-2000:]
     r.ok = bool(res.get("success"))
     return r
+
+
+def stale_hint_fns(g, r):
+    """Front-end error: keys of the extracted functions that have an error diagnostic on a generated line which
+    does not come from /repo (= spliced ghost text) inside their span."""
+    out = set()
+    for d in r.diags:
+        for sp in d.get("spans", []):
+            ln = sp[0] if isinstance(sp, (list, tuple)) else None
+            if not ln:
+                continue
+            src = g.linemap[ln - 1] if ln - 1 < len(g.linemap) else None
+            if src and src[1]:
+                continue            # the error is on real code
+            for fn in g.fns:
+                if fn.get("gen_start") and fn.get("gen_end") and fn["gen_start"] <= ln <= fn["gen_end"]:
+                    out.add(fn["key"])
+    return out
 
 
 DEFINITE = (
